@@ -8,6 +8,7 @@ For every container the tie runs identical random operation histories through
 and compares every return value and the full observable state after every step.
 """
 import os
+import signal
 import sys
 
 import vf
@@ -23,7 +24,8 @@ META = {
     "text": "Refinement theorems (for every operation history, no bound) about Gallina models of the three containers; "
             "the models are tied to problog/util.py by running identical random operation histories through both and "
             "comparing every observable (iteration order, len, truthiness, return values) after every step.",
-    "note": "Trusted: Coq kernel + vm_compute; hand-written models (correspondence is sampled, not exhaustive); CPython int/list/dict semantics.",
+    "note": "Trusted: Coq kernel + vm_compute; hand-written models (correspondence is sampled, not exhaustive); CPython int/list/dict semantics; "
+            "extraction (ExtrOcamlBasic only) + ~60-line OCaml drivers per container for the volume path (a sample also goes through vm_compute without glue).",
 }
 
 HEADER = """From Coq Require Import NArith List Bool.
@@ -41,6 +43,42 @@ UH_HEADER = """From Coq Require Import NArith List Bool.
 From PL.C34 Require Import UHeapModel.
 Import ListNotations.
 """
+
+
+class Nonterminating(Exception):
+    pass
+
+
+class time_limit:
+    """A corrupted ring / heap can make the real class loop for ever: bound every run of the implementation."""
+
+    def __init__(self, seconds=2.0):
+        self.seconds = seconds
+
+    def _fire(self, signum, frame):
+        raise Nonterminating("implementation did not finish within %.0f s" % self.seconds)
+
+    def __enter__(self):
+        self.old = signal.signal(signal.SIGALRM, self._fire)
+        signal.setitimer(signal.ITIMER_REAL, self.seconds)
+
+    def __exit__(self, *a):
+        signal.setitimer(signal.ITIMER_REAL, 0)
+        signal.signal(signal.SIGALRM, self.old)
+        return False
+
+
+MAX_REPORTS = 4   # per container and run: every further violating history is only counted
+
+
+def report(ctx, container, what_fn):
+    """Shrink + report at most MAX_REPORTS violations per container (shrinking hundreds of failing
+    histories of a badly broken class would take the whole budget and flood replays/)."""
+    n = ctx.hist.get(container + "_violating_histories", 0)
+    ctx.count(container + "_violating_histories")
+    if n < MAX_REPORTS:
+        what, replay, klass = what_fn()
+        ctx.violation(what, replay, klass=klass)
 
 
 def shrink_ops(ops, bad):
@@ -192,24 +230,45 @@ def classify_bv(ops, impl, spec):
     return None
 
 
+def bv_bad(ops):
+    try:
+        with time_limit():
+            return bv_impl_trace(ops) != bv_spec_trace(ops) or not bv_membership_ok(ops)
+    except Exception:
+        return True
+
+
+def bv_describe(ops):
+    try:
+        with time_limit():
+            impl = bv_impl_trace(ops)
+            spec = bv_spec_trace(ops)
+            if impl != spec:
+                return ("got %r, set model says %r" % (impl[-1], spec[-1]), classify_bv(ops, impl, spec))
+            return ("`in` disagrees with iteration", None)
+    except Exception as e:
+        return ("raised %r" % (e,), None)
+
+
 def bv_check_one(ctx, ops):
     """Judge one history against the set reference.  Returns the impl trace or None."""
+    impl = None
     try:
-        impl = bv_impl_trace(ops)
-    except Exception as e:  # any exception of the container is a violation
-        ctx.violation("BitVector raised %r" % (e,), {"container": "BitVector", "ops": tolist(ops)}, klass=None)
+        with time_limit():
+            impl = bv_impl_trace(ops)
+            ok = impl == bv_spec_trace(ops) and bv_membership_ok(ops)
+    except Exception:  # any exception of the container is a violation
+        ok = False
+    if not ok:
+        klass0 = bv_describe(ops)[1]
+
+        def what():
+            small = shrink_ops(ops, bv_bad)
+            why, klass = bv_describe(small)
+            return ("BitVector differs from the set model on history %r: %s" % (small, why),
+                    {"container": "BitVector", "ops": tolist(small)}, klass)
+        report(ctx, "bv[%s]" % klass0, what)
         return None
-    spec = bv_spec_trace(ops)
-    if impl != spec:
-        small = shrink_ops(ops, lambda c: bv_impl_trace(c) != bv_spec_trace(c))
-        ctx.violation("BitVector differs from the set model on history %r: got %r, set model says %r"
-                      % (small, bv_impl_trace(small)[-1], bv_spec_trace(small)[-1]),
-                      {"container": "BitVector", "ops": tolist(small), "impl": bv_impl_trace(small), "spec": bv_spec_trace(small)},
-                      klass=classify_bv(small, bv_impl_trace(small), bv_spec_trace(small)))
-    elif not bv_membership_ok(ops):
-        small = shrink_ops(ops, lambda c: not bv_membership_ok(c))
-        ctx.violation("BitVector `in` disagrees with iteration after history %r" % (small,),
-                      {"container": "BitVector", "ops": tolist(small)}, klass=None)
     return impl
 
 
@@ -234,7 +293,7 @@ def oracle_compare(ctx, what, exe, lines, expected, metas):
 
 def run_bitvector(ctx, histories=None):
     nseq = ctx.n(3000, 60000)
-    nvm = ctx.n(16, 120)
+    nvm = ctx.n(8, 120)
     if histories is None:
         histories = [gen_bv_ops(ctx.rng, ctx.rng.choice([3, 6, 12, 25])) for _ in range(nseq)]
     done = []
@@ -508,32 +567,46 @@ def os_trace_coq(trace):
 
 def os_bad(ops):
     try:
-        return os_impl_trace(ops) != os_spec_trace(ops)
+        with time_limit():
+            return os_impl_trace(ops) != os_spec_trace(ops)
     except Exception:
         return True
 
 
-def os_check_one(ctx, ops):
+def os_describe(ops):
     try:
-        impl = os_impl_trace(ops)
+        with time_limit():
+            impl = os_impl_trace(ops)
+        spec = os_spec_trace(ops)
+        for step, (a, b) in enumerate(zip(impl, spec)):
+            if a != b:
+                return "step %d (%r): got %r, model says %r" % (step, ops[step], a, b)
+        return "no difference"
     except Exception as e:
-        small = shrink_ops(ops, os_bad)
-        ctx.violation("OrderedSet raised %r on history %r" % (e, small),
-                      {"container": "OrderedSet", "ops": tolist(small)}, klass=None)
+        return "raised %r" % (e,)
+
+
+def os_check_one(ctx, ops):
+    impl = None
+    try:
+        with time_limit():
+            impl = os_impl_trace(ops)
+        ok = impl == os_spec_trace(ops)
+    except Exception:
+        ok = False
+    if not ok:
+        def what():
+            small = shrink_ops(ops, os_bad)
+            return ("OrderedSet differs from the insertion-ordered list model on history %r: %s" % (small, os_describe(small)),
+                    {"container": "OrderedSet", "ops": tolist(small)}, None)
+        report(ctx, "os", what)
         return None
-    spec = os_spec_trace(ops)
-    if impl != spec:
-        small = shrink_ops(ops, os_bad)
-        ctx.violation("OrderedSet differs from the insertion-ordered list model on history %r: got %r, model says %r"
-                      % (small, os_impl_trace(small)[-1], os_spec_trace(small)[-1]),
-                      {"container": "OrderedSet", "ops": tolist(small), "impl": tolist(os_impl_trace(small)),
-                       "spec": tolist(os_spec_trace(small))}, klass=None)
     return impl
 
 
 def run_orderedset(ctx, histories=None):
     nseq = ctx.n(3000, 60000)
-    nvm = ctx.n(16, 120)
+    nvm = ctx.n(8, 120)
     if histories is None:
         histories = [gen_os_ops(ctx.rng, ctx.rng.choice([4, 8, 16, 30])) for _ in range(nseq)]
     done = []
@@ -584,7 +657,7 @@ def run_orderedset(ctx, histories=None):
                         vf.coq_list([os_out_coq(o) for (o, _) in spec])))
         metas.append(("spec", ops))
     try:
-        bad = ctx.coq_failing(OS_HEADER, cases, name="os", shard=8)
+        bad = ctx.coq_failing(OS_HEADER, cases, name="os", shard=4)
     except RuntimeError as e:
         ctx.broken.append("correspondence:OrderedSet model does not evaluate")
         ctx.notes.append(str(e))
@@ -734,32 +807,42 @@ def uh_trace_coq(trace):
 def uh_bad(identity):
     def bad(ops):
         try:
-            return uh_judge(ops, uh_impl_trace(identity, ops)) is not None
+            with time_limit():
+                return uh_judge(ops, uh_impl_trace(identity, ops)) is not None
         except Exception:
             return True
     return bad
 
 
-def uh_check_one(ctx, identity, ops):
+def uh_describe(identity, ops):
     try:
-        impl = uh_impl_trace(identity, ops)
+        with time_limit():
+            return uh_judge(ops, uh_impl_trace(identity, ops)) or "no difference"
     except Exception as e:
-        small = shrink_ops(ops, uh_bad(identity))
-        ctx.violation("UHeap raised %r on history %r" % (e, small),
-                      {"container": "UHeap", "identity_key": identity, "ops": tolist(small)}, klass=None)
+        return "raised %r" % (e,)
+
+
+def uh_check_one(ctx, identity, ops):
+    impl = None
+    try:
+        with time_limit():
+            impl = uh_impl_trace(identity, ops)
+        ok = uh_judge(ops, impl) is None
+    except Exception:
+        ok = False
+    if not ok:
+        def what():
+            small = shrink_ops(ops, uh_bad(identity))
+            return ("UHeap violates the min-key map model on history %r: %s" % (small, uh_describe(identity, small)),
+                    {"container": "UHeap", "identity_key": identity, "ops": tolist(small)}, None)
+        report(ctx, "uh", what)
         return None
-    why = uh_judge(ops, impl)
-    if why is not None:
-        small = shrink_ops(ops, uh_bad(identity))
-        ctx.violation("UHeap violates the min-key map model on history %r: %s"
-                      % (small, uh_judge(small, uh_impl_trace(identity, small))),
-                      {"container": "UHeap", "identity_key": identity, "ops": tolist(small)}, klass=None)
     return impl
 
 
 def run_uheap(ctx, histories=None):
     nseq = ctx.n(3000, 60000)
-    nvm = ctx.n(16, 120)
+    nvm = ctx.n(8, 120)
     if histories is None:
         histories = [gen_uh_ops(ctx.rng, ctx.rng.choice([4, 8, 16, 30])) for _ in range(nseq)]
     univ = vf.coq_list([vf.coq_N(x) for x in UH_ITEMS])
@@ -806,7 +889,7 @@ def run_uheap(ctx, histories=None):
         cases.append("sp_accepts [] %s %s" % (opsc, vf.coq_list([uh_out_coq(o) for (o, _) in impl])))
         metas.append(("spec", ops))
     try:
-        bad = ctx.coq_failing(UH_HEADER, cases, name="uh", shard=8)
+        bad = ctx.coq_failing(UH_HEADER, cases, name="uh", shard=4)
     except RuntimeError as e:
         ctx.broken.append("correspondence:UHeap model does not evaluate")
         ctx.notes.append(str(e))
